@@ -9,6 +9,15 @@ use crate::world::World;
 use num_bigint::BigUint;
 use serde_json::{json, Value};
 
+pub fn isolated_c03(_t: Tier, i: usize) -> bool {
+    // every other two-caller run: a fresh process (first-use races); the rest run in a worker that
+    // has executed other runs before (tables warm, several keys seen)
+    two_caller_run_c03(i) && i % 2 == 0
+}
+fn two_caller_run_c03(i: usize) -> bool {
+    (2..26).contains(&i)
+}
+
 pub fn runs_c03(t: Tier) -> usize {
     t.pick(1200, 60000)
 }
@@ -85,17 +94,42 @@ pub fn run_c03(p: &mut Prng, _t: Tier, i: usize, sink: &mut Sink) {
         }
         w.bump("history.very-large-inputs");
     }
-    if (2..22).contains(&i) {
-        // two signers with different keys on two caller threads, interleaved at the RNG seam
+    if two_caller_run_c03(i) {
+        // Two signers with different keys on two simulated caller threads, in a worker process of
+        // their own (nothing in the library has been used yet). Three shapes: both cold; one key
+        // already used (a hit beside a miss in whatever the library memoises); a signature beside
+        // a verification.
         let (mut ops_a, sa) = session_ops(p, "pa", "lib", false);
         let (mut ops_b, sb) = session_ops(p, "pb", "lib", false);
         let (sign_a, sign_b) = (ops_a.pop().unwrap(), ops_b.pop().unwrap());
         for op in ops_a.into_iter().chain(ops_b) {
             w.exec(op);
         }
-        w.exec(par(sign_a, sign_b, &par_order(p)));
-        if w.slots.contains_key("pa.sig") && w.slots.contains_key("pb.sig") {
-            w.exec(par(verify_op("pa", sa.id.is_some(), "new"), verify_op("pb", sb.id.is_some(), "new"), &par_order(p)));
+        let (va, vb) = (verify_op("pa", sa.id.is_some(), "new"), verify_op("pb", sb.id.is_some(), "new"));
+        match i % 3 {
+            0 => {
+                w.exec(par(sign_a, sign_b, &par_order(p)));
+                if w.slots.contains_key("pa.sig") && w.slots.contains_key("pb.sig") {
+                    w.exec(par(va, vb, &par_order(p)));
+                }
+            }
+            1 => {
+                w.exec(sign_a.clone());
+                w.exec(va.clone());
+                w.exec(par(sign_a, sign_b, &par_order(p)));
+                if w.slots.contains_key("pa.sig") && w.slots.contains_key("pb.sig") {
+                    w.exec(par(va, vb, &par_order(p)));
+                }
+            }
+            _ => {
+                w.exec(sign_a);
+                if w.slots.contains_key("pa.sig") {
+                    w.exec(par(va.clone(), sign_b, &par_order(p)));
+                    if w.slots.contains_key("pb.sig") {
+                        w.exec(par(vb, va, &par_order(p)));
+                    }
+                }
+            }
         }
         sink.done(w);
         return;
@@ -109,6 +143,9 @@ pub fn run_c03(p: &mut Prng, _t: Tier, i: usize, sink: &mut Sink) {
         let (mut ops, sess) = session_ops(p, &pfx, signer, by_lib);
         let via = if p.chance(1, 4) { "struct" } else { "new" };
         // when the key pair came from gen_keypair the pk slot is uncompressed, struct delivery is fine
+        if p.chance(1, 5) {
+            ops.extend(damaged_first(p, &verify_op(&pfx, sess.id.is_some(), via), "sig", 64));
+        }
         ops.push(verify_op(&pfx, sess.id.is_some(), via));
         // history: the same key signs again (same message or another one) with a fresh script
         if p.chance(1, 4) {
@@ -250,6 +287,15 @@ pub fn run_c04(p: &mut Prng, t: Tier, _i: usize, sink: &mut Sink) {
         }
     }
     branches.push(vec![fault("a.sig", "swap_halves", json!({})), v(via0)]);
+    // the same (r, s) in other framings: DER SEQUENCE{INTEGER r, INTEGER s} (the form certificates
+    // and most other libraries use), text encodings, padded / length-prefixed parts. This API's
+    // signature is r||s in 64 bytes and nothing else.
+    let sig_now = w.slots.get("a.sig").cloned().unwrap_or_default();
+    for (name, bytes) in reframings(&sig_now, &[(0, 32), (32, 64)]) {
+        w.bump("fault.reframed");
+        w.bump(&format!("probe.reframed.{name}"));
+        branches.push(vec![set("a.sig", &bytes), v(via0)]);
+    }
     // two-byte faults whose differences cancel under XOR / addition folding
     for _ in 0..24 {
         let (p1, p2) = (p.range(0, 63), p.range(0, 63));
